@@ -27,6 +27,9 @@ pub enum Op {
     ToProj(u8, u8),
     RoundTrip(u8),
     Rescale(u8, FeR),
+    /// give register i the same Z as register j (harness-side change of representative): operands that
+    /// share a Z other than 1, as produced naturally by e.g. (A+B) and (A-B)
+    AlignZ(u8, u8),
     BatchNorm(Vec<u8>),
     Eq(u8, u8),
     EqAff(u8, u8),
@@ -59,6 +62,7 @@ fn op_strategy() -> BoxedStrategy<Op> {
         2 => (p(), a()).prop_map(|(i, j)| Op::ToProj(i, j)),
         1 => p().prop_map(Op::RoundTrip),
         3 => (p(), fq_uniformish()).prop_map(|(i, l)| Op::Rescale(i, l)),
+        3 => (p(), p()).prop_map(|(i, j)| Op::AlignZ(i, j)),
         2 => proptest::collection::vec(p(), 0..8).prop_map(Op::BatchNorm),
         3 => (p(), p()).prop_map(|(i, j)| Op::Eq(i, j)),
         1 => (a(), a()).prop_map(|(i, j)| Op::EqAff(i, j)),
@@ -160,9 +164,17 @@ where
                     exceptional += 1;
                     info.class(format!("{}:P=-Q", name));
                 } else if let (Pt::Aff(x1, y1), Pt::Aff(x2, y2)) = (&mp[i], &rhs_m) {
+                    let same_z = {
+                        let (_, _, z1) = cp[i].as_tuple();
+                        let (_, _, z2) = cp[j].as_tuple();
+                        G::f_m(z1) == G::f_m(z2) && !proj_z_is_one::<G>(&cp[i])
+                    };
                     if y1 == y2 && x1 != x2 {
                         exceptional += 1;
                         info.class(format!("{}:same-y-different-x", name));
+                    } else if same_z {
+                        exceptional += 1;
+                        info.class(format!("{}:distinct-points-sharing-Z!=1", name));
                     } else {
                         info.class(format!("{}:general", name));
                     }
@@ -298,6 +310,20 @@ where
                 let nz = G::f_m(zc).mul(&lam);
                 cp[i] = G::proj_raw(G::f_c(&nx), G::f_c(&ny), G::f_c(&nz));
                 cmp_proj::<G>("rescale (harness)", step, &cp[i], &mp[i])?;
+            }
+            Op::AlignZ(i, j) => {
+                let (i, j) = (*i as usize % np, *j as usize % np);
+                if !mp[i].is_inf() && !mp[j].is_inf() {
+                    let (x, y, zi) = cp[i].as_tuple();
+                    let (_, _, zj) = cp[j].as_tuple();
+                    // lambda = Zj / Zi
+                    let lam = G::f_m(zj).mul(&G::f_m(zi).inv().ok_or("harness: Z = 0 on a finite point")?);
+                    let l2 = lam.sqr();
+                    let l3 = l2.mul(&lam);
+                    let (nx, ny, nz) = (G::f_m(x).mul(&l2), G::f_m(y).mul(&l3), G::f_m(zi).mul(&lam));
+                    cp[i] = G::proj_raw(G::f_c(&nx), G::f_c(&ny), G::f_c(&nz));
+                    cmp_proj::<G>("align Z (harness)", step, &cp[i], &mp[i])?;
+                }
             }
             Op::BatchNorm(idx) => {
                 let idx: Vec<usize> = idx.iter().map(|i| *i as usize % np).collect();
